@@ -84,7 +84,12 @@ TVOther == /\ l <= Len(Rec) /\ Rec[l].ev \in {"hook", "threads", "serve"} /\ l' 
            /\ viol' = IF Rec[l].ev = "threads" /\ Rec[l].exit /\ Rec[l].after > Rec[l].before THEN AddViol(viol, {"C16/threads-left-after-drop"}, cur)
                       ELSE IF Rec[l].ev = "serve" THEN AddViol(viol, ServeViol(Rec[l]), cur) ELSE viol
            /\ UNCHANGED <<tpc, err, flag, sock, cpc, peerOpen, consumed, ncallers, peerSends, peerCloses, off, judged, cur>>
-TVNext == TVReset \/ TVCmd \/ TVEnd \/ TVOther
+\* the process under test was killed by a signal while this case ran (recorded by the driver; `begin` marks the letter that
+\* was in progress): judged like any other observation -- whatever the property, an input that kills the process breaks it
+TVCrashAny == /\ l <= Len(Rec) /\ Rec[l].ev \in {"crash", "begin"}
+              /\ viol' = IF Rec[l].ev = "crash" THEN AddViol(viol, {"ANY/process-killed-by-signal-" \o Str(Rec[l].signal)}, Rec[l].id) ELSE viol
+              /\ l' = l + 1 /\ UNCHANGED <<tpc, err, flag, sock, cpc, peerOpen, consumed, ncallers, peerSends, peerCloses, off, judged, cur>>
+TVNext == TVReset \/ TVCmd \/ TVEnd \/ TVOther \/ TVCrashAny
 TVSpec == TVInit /\ [][TVNext]_tvars
 Post == PostOK
 Report == ReportAt(l, judged, viol)
